@@ -377,11 +377,16 @@ fn gen_layered(rng: &mut Rng, depth: usize, width: usize) -> GraphData {
         g.inits.push(i as u32);
     }
     let deg = rng.range(2, 4);
+    // "funnel" graphs: the random edges of a layer all aim at a narrow window of the next layer,
+    // so that the same successor is generated by many states (and worker threads) at about the
+    // same time - the situation in which insert-if-absent arbitration on the visited set matters
+    let funnel = rng.pct(40);
     for l in 0..depth - 1 {
+        let window = if funnel { (width / 64).max(8).min(width) } else { width };
         for i in 0..width {
             let s = l * width + i;
             for _ in 0..deg {
-                g.out[s].push(Some(((l + 1) * width + rng.below(width)) as u32));
+                g.out[s].push(Some(((l + 1) * width + rng.below(window)) as u32));
             }
             // make sure the layer below is well covered
             g.out[s].push(Some(((l + 1) * width + (i * 2) % width) as u32));
